@@ -68,23 +68,38 @@ type Server struct {
 	receives map[string]*receiveSession
 	nextID   int
 	HTTP     *httptest.Server
+	mux      *http.ServeMux
 }
 
 func New(db objects.Store, rs ref.Store, maxPack uint64) *Server {
-	s := &Server{DB: db, RS: rs, MaxPack: maxPack, uploads: map[string]*uploadSession{}, receives: map[string]*receiveSession{}}
-	mux := http.NewServeMux()
-	mux.HandleFunc("/refs/", s.handleRefs)
-	mux.HandleFunc("/upload-pack/", s.handleUploadPack)
-	mux.HandleFunc("/receive-pack/", s.handleReceivePack)
-	mux.HandleFunc("/objects/", s.handleObjects)
-	s.HTTP = httptest.NewServer(mux)
+	s := NewCore(db, rs, maxPack)
+	s.HTTP = httptest.NewServer(s.mux)
 	return s
+}
+
+// NewCore is a repository without a listener of its own: Mount it under a path of another server.
+func NewCore(db objects.Store, rs ref.Store, maxPack uint64) *Server {
+	s := &Server{DB: db, RS: rs, MaxPack: maxPack, uploads: map[string]*uploadSession{}, receives: map[string]*receiveSession{}}
+	s.mux = http.NewServeMux()
+	s.mux.HandleFunc("/refs/", s.handleRefs)
+	s.mux.HandleFunc("/upload-pack/", s.handleUploadPack)
+	s.mux.HandleFunc("/receive-pack/", s.handleReceivePack)
+	s.mux.HandleFunc("/objects/", s.handleObjects)
+	return s
+}
+
+// Mount serves a second repository under prefix (e.g. "/b") of this server's address: two remotes on one host.
+func (s *Server) Mount(prefix string, sub *Server) {
+	sub.nextID = 1000000 // session ids travel in cookies scoped to the host: keep the two repositories' ids apart
+	s.mux.Handle(prefix+"/", http.StripPrefix(prefix, sub.mux))
 }
 
 func (s *Server) URL() string { return s.HTTP.URL }
 
 func (s *Server) Close() {
-	s.HTTP.Close()
+	if s.HTTP != nil {
+		s.HTTP.Close()
+	}
 	s.mu.Lock()
 	defer s.mu.Unlock()
 	for id, u := range s.uploads {
